@@ -48,18 +48,17 @@ Record catches := {
 Definition is_os e := exn_eqb e EOS.
 Definition is_os_or_value e := exn_eqb e EOS || exn_eqb e EValue.
 Definition is_rt_or_value e := exn_eqb e ERuntime || exn_eqb e EValue.
-(* the code as it is today *)
+(* the code as it is today (1aa56d9: setup_logging sets logging.raiseExceptions = False) *)
 Definition head : catches :=
-  {| c_setup := is_os; c_expand := is_rt_or_value; c_cfg := is_os_or_value; c_dec := is_os_or_value; c_tb := true |}.
+  {| c_setup := is_os; c_expand := is_rt_or_value; c_cfg := is_os_or_value; c_dec := is_os_or_value; c_tb := false |}.
 (* before d0d4edf (ValueError for NUL) and bdbaab3 (RuntimeError of expanduser) *)
 Definition legacy : catches :=
   {| c_setup := is_os; c_expand := exn_eqb EValue; c_cfg := is_os; c_dec := is_os; c_tb := true |}.
-(* proposed repair of the stderr finding: setup_logging sets logging.raiseExceptions = False *)
-Definition quiet : catches :=
-  {| c_setup := is_os; c_expand := is_rt_or_value; c_cfg := is_os_or_value; c_dec := is_os_or_value; c_tb := false |}.
-
+(* before 1aa56d9: the same except clauses, logging.raiseExceptions at its default *)
+Definition loud : catches :=
+  {| c_setup := is_os; c_expand := is_rt_or_value; c_cfg := is_os_or_value; c_dec := is_os_or_value; c_tb := true |}.
 (* the except clauses as they are in the working tree right now (Gen/Tables.v is regenerated from
-   dippy.py / config.py on every run); Props/C15.v checks that this is [head] or [quiet] *)
+   dippy.py / config.py on every run); Props/C15.v checks that this is [head] *)
 Definition catches_class (names : list str) (e : exn) : bool :=
   let any := mem_str $"Exception" names || mem_str $"BaseException" names in
   match e with
